@@ -13,7 +13,8 @@ META = {
     'technique': 'exhaustive enumeration of all preload files up to a line bound over a line alphabet, real snoopyctl, reference predicate from the statement',
     'text': 'Every file of the bounded grammar (entry first/middle/last/only, without final newline, followed by a comment, sharing its line with other entries, CR-LF, prefix/suffix paths, comments, blanks, %-sequences) '
             'is fed to the real `snoopyctl disable`, `enable;disable` and `disable;disable`; all lines other than the entry\'s line must survive byte for byte in order, the library tokens of active lines '
-            'must be the old ones minus exactly one own entry, refusals leave the file untouched and occur only for duplicate active mentions.',
+            'must be the old ones minus exactly one own entry, refusals leave the file untouched and occur only for duplicate active mentions.'
+            ' The own entry counts wherever the dynamic loader takes it; after a reported success it must not be an active token any more; a foreign unterminated last line keeps its missing line feed; sparse files of 2^31-1..2^33 bytes.',
     'note': 'What remains of the entry\'s own line (blanks, a trailing comment) is not pinned down by the statement: the line may vanish or keep its other tokens. '
             'An own path that is not at the start of its line is accepted both untouched and removed.',
 }
